@@ -257,8 +257,13 @@ class Check:
     # -- Coq
     def build(self):
         """make the static development (no-op when up to date)."""
-        env = dict(os.environ, KEEP_GOING='1')
-        rc, out = sh([os.path.join(COQ, 'build.sh')], timeout=3000, env=env)
+        # build only what this property needs; do not queue for long behind other builds (after
+        # ./setup.sh everything is up to date and this is a no-op)
+        env = dict(os.environ, KEEP_GOING='1', LOCK_WAIT=os.environ.get('LOCK_WAIT', '300'))
+        rc, out = sh([os.path.join(COQ, 'build.sh'), 'theories/Props/%s.vo' % self.pid], timeout=3000, env=env)
+        if rc == 75:
+            self.notes.append('build lock busy: static build skipped, compiling Props/%s.v against the existing .vo files' % self.pid)
+            return True, out
         if rc != 0:
             self.log('static Coq build FAILED:\n' + out[-3000:])
         return rc == 0, out
